@@ -132,9 +132,9 @@ def trivia(rng, allow_newline=True):
         elif r < 0.6 and allow_newline:
             parts.append(rng.choice(["\n", "\r\n", "\n\n", " \n "]))
         elif r < 0.8:
-            parts.append(rng.choice(["/**/", "/* c */", "/* * / */", "/*+*/", "/* // */"]))
+            parts.append(rng.choice(["/**/", "/* c */", "/* * / */", "/*+*/", "/* // */", "/*/ c */", "/*/*/", "/***/", "/*//*/", "/* /* */", "/*\\*/", "/*'*/", "/*\"*/", "/*/ + 1 /*/"]))
         elif r < 0.9 and allow_newline:
-            parts.append(rng.choice(["// c\n", "//\n", "// /* \n", "/* a\n b */"]))
+            parts.append(rng.choice(["// c\n", "//\n", "// /* \n", "/* a\n b */", "// */\n", "//'\n", "/*/\n/*/", "/*\n//\n*/", "//\\\n"]))
         else:
             parts.append(" ")
     s = "".join(parts)
